@@ -38,7 +38,11 @@ func NewCaseBound(o Opts) (*Case, error) {
 	}
 	c.Addr = sock.Addr().String()
 
-	cl := v2.Cluster{Name: c.ClusterName, ClusterType: v2.SIMPLE_CLUSTER, LbType: v2.LB_ROUNDROBIN, MaxRequestPerConn: 1024, ConnBufferLimitBytes: 16 * 1024}
+	// cluster_pool_enable as in NewCase: the case's pools belong to its own cluster. The default pools are global per
+	// protocol and address, and loopback ports come back: a later case whose upstream gets the port of an earlier one
+	// would inherit that one's pool - with the EARLIER cluster's circuit breakers (seen once: max_connections=1 of the
+	// case ignored by a pool left over from a case without limits)
+	cl := v2.Cluster{Name: c.ClusterName, ClusterType: v2.SIMPLE_CLUSTER, LbType: v2.LB_ROUNDROBIN, MaxRequestPerConn: 1024, ConnBufferLimitBytes: 16 * 1024, ClusterPoolEnable: true}
 	if o.Cluster != nil {
 		o.Cluster(&cl)
 	}
